@@ -80,6 +80,7 @@ var (
 	flagMutant  = flag.String("mutant", "", "run one mutant of the corpus (internal, thorough tier)")
 	flagListMut = flag.Bool("list-mutants", false, "list mutant ids for the property")
 	flagSeeded  = flag.String("seeded", "", "run one seeded change (directory under /verif/seeded; internal, thorough tier)")
+	flagPreserv = flag.String("preserving", "", "run one behaviour-preserving refactoring (directory under /verif/preserving; internal, thorough tier)")
 	flagVariant = flag.String("variant", "", "internal: build-configuration variant (386|race|tests)")
 	flagNoEv    = flag.Bool("noevidence", false, "do not write evidence (development / subprocess)")
 )
@@ -160,6 +161,9 @@ func run() int {
 
 	if *flagMutant != "" {
 		return runMutant(p, *flagMutant)
+	}
+	if *flagPreserv != "" {
+		return runPreserving(p, *flagPreserv)
 	}
 	if *flagSeeded != "" {
 		return runSeeded(p, *flagSeeded)
@@ -269,6 +273,9 @@ func run() int {
 		p.ID, *flagTier, *flagVariant, len(w.Funcs), len(w.G.Sinks), len(w.G.Callbacks), len(rep.Obs), counts[Discharged], counts[Known], counts[Violated], counts[Undecided])
 	for _, rn := range sortedKeys(perRule) {
 		fmt.Printf("  rule %-10s %3d instances\n", rn, perRule[rn])
+	}
+	for _, n := range w.NormNotes {
+		fmt.Println("  normalised:", n)
 	}
 	for _, n := range rep.Notes {
 		fmt.Println("  note:", n)
@@ -383,6 +390,13 @@ func writeEvidence(p *Property, tier string, seed int, w *World, rep *Report, ct
 	}
 	cov["explanation"] = p.Explanation + explanationAddenda[p.ID]
 	cov["checker_cmd"] = fmt.Sprintf("/verif/bin/gkvcheck -property %s -tier %s", p.ID, tier)
+	if w != nil {
+		norm := w.NormNotes
+		if norm == nil {
+			norm = []string{"no helper outside the table of known functions and no directly-called local closure: the source was analysed as written"}
+		}
+		cov["source_normalisation"] = norm
+	}
 	cov["trusted_base"] = append([]string{"go/types, go/ssa (golang.org/x/tools v0.29.0)", "closed-world check of DESIGN §3.A", "user callbacks are behaviourally neutral"}, p.Trusted...)
 	if rep != nil {
 		disc := 0
